@@ -254,6 +254,69 @@ def badLeave (s : Reuse) : Reuse := { s with slot := none, idle := true }
 example : (((((({} : Reuse).step .send).map badLeave).bind (·.step .take)).bind (·.step .send)).bind (·.step .reply)).map (·.log)
     = some [(1, 0)] := by decide
 
+/-! ## reply buffers are released to the pool only by their last owner (upstream level: plain UDP with TCP fallback) -/
+
+theorem ev_pool_mono (s : Own) (e : BufEv) (b : Nat) (h : b ∈ s.pool) : b ∈ (s.ev e).pool := by
+  cases e <;> simp [Own.ev, h]
+
+theorem ev_deferred_mono (s : Own) (e : BufEv) (b : Nat) (h : b ∈ s.deferred) : b ∈ (s.ev e).deferred := by
+  cases e <;> simp [Own.ev, h]
+
+theorem foldl_pool_mono (p : List BufEv) : ∀ (s : Own) (b : Nat), b ∈ s.pool → b ∈ (p.foldl Own.ev s).pool := by
+  induction p with
+  | nil => intro s b h; exact h
+  | cons e p ih => intro s b h; exact ih _ b (ev_pool_mono s e b h)
+
+theorem foldl_deferred_mono (p : List BufEv) : ∀ (s : Own) (b : Nat), b ∈ s.deferred → b ∈ (p.foldl Own.ev s).deferred := by
+  induction p with
+  | nil => intro s b h; exact h
+  | cons e p ih => intro s b h; exact ih _ b (ev_deferred_mono s e b h)
+
+theorem released_in_pool (p : List BufEv) : ∀ (s : Own) (b : Nat), BufEv.release b ∈ p → b ∈ (p.foldl Own.ev s).pool := by
+  induction p with
+  | nil => intro s b h; cases h
+  | cons e p ih =>
+    intro s b h
+    simp only [List.mem_cons] at h
+    rcases h with rfl | h
+    · exact foldl_pool_mono p _ b (by simp [Own.ev])
+    · exact ih _ b h
+
+theorem deferred_in_deferred (p : List BufEv) : ∀ (s : Own) (b : Nat), BufEv.deferRelease b ∈ p → b ∈ (p.foldl Own.ev s).deferred := by
+  induction p with
+  | nil => intro s b h; cases h
+  | cons e p ih =>
+    intro s b h
+    simp only [List.mem_cons] at h
+    rcases h with rfl | h
+    · exact foldl_deferred_mono p _ b (by simp [Own.ev])
+    · exact ih _ b h
+
+/-- **A buffer handed to the caller has not been given back to the pool by the function that returns it** —
+neither directly nor by a deferred release: on every path that the model calls safe and that ends in
+`return v`, no `pool.ReleaseBuf(v)` and no `defer pool.ReleaseBuf(v)` precedes the return. For all paths, of
+any length, over any number of buffers. -/
+theorem returned_never_released (pre : List BufEv) (v : Nat) (h : (runPath (pre ++ [.ret v])).safe = true) :
+    BufEv.release v ∉ pre ∧ BufEv.deferRelease v ∉ pre := by
+  simp only [runPath, List.foldl_append, List.foldl_cons, List.foldl_nil, Own.safe, Own.exit, Own.ev,
+    Bool.and_eq_true, Bool.not_eq_true', List.contains_eq_mem, List.mem_append, decide_eq_false_iff_not, not_or] at h
+  obtain ⟨⟨_, hd, hp⟩, _⟩ := h
+  exact ⟨fun hr => hp (released_in_pool pre _ v hr), fun hr => hd (deferred_in_deferred pre _ v hr)⟩
+
+/-- **Every control-flow path of `udpWithFallback.ExchangeContext`, as regenerated from the source, leaves the
+pool safe**: the reply it hands to its caller is not in the free list, every other reply buffer it received
+went back at most once, and none is read after its release. -/
+theorem fallback_buffers_single_owner : pathsSafe Gen.Facts.c01FallbackBufPaths = true := by decide
+
+/-- the seeded defect "the truncated UDP reply is returned when the TCP retry fails, and released by a `defer`":
+got r, read r (TC test), defer release r, got tr, tr lost (TCP error), return r — r is in the free list while
+its caller holds it -/
+example : pathsSafe (some [[(0, 0), (2, 0), (4, 0), (0, 1), (1, 1), (5, 0)]]) = false := by decide
+/-- ... whereas returning it without the release, or releasing it and returning the TCP reply, is safe (C17 decides which one is wanted) -/
+example : pathsSafe (some [[(0, 0), (2, 0), (0, 1), (1, 1), (5, 0)], [(0, 0), (2, 0), (3, 0), (0, 1), (5, 1)], [(0, 0), (2, 0), (3, 0), (6, 0)]]) = true := by decide
+/-- a double release and a read after release are unsafe -/
+example : pathsSafe (some [[(0, 0), (3, 0), (4, 0), (6, 0)]]) = false ∧ pathsSafe (some [[(0, 0), (3, 0), (2, 0), (6, 0)]]) = false := by decide
+
 /-! ## tie to the source: regenerated facts -/
 
 theorem facts_guard :
@@ -263,7 +326,8 @@ theorem facts_guard :
     Gen.Facts.c01CallerIdRestored = some true ∧ Gen.Facts.c01DohIdZeroedAndRestored = some true ∧
     Gen.Facts.c01DoqIdZeroedAndRestored = some true ∧ Gen.Facts.c01ReuseLeaveKeepsSlot = some true ∧
     Gen.Facts.c01ReuseOneWaiter = some true ∧ Gen.Facts.c01ReuseReaderDispatch = some true ∧
-    Gen.Facts.c01ReuseSetIdleCallSites = some 2 ∧ Gen.Facts.c01ReuseTakeRemovesFromIdle = some true := by decide
+    Gen.Facts.c01ReuseSetIdleCallSites = some 2 ∧ Gen.Facts.c01ReuseTakeRemovesFromIdle = some true ∧
+    Gen.Facts.c01FallbackBufPaths.isSome = true := by decide
 
 /-! ## non-vacuity -/
 
